@@ -34,4 +34,5 @@ one C09 F8c "Taggable map none of whose tags"
 one C10 F11 "withIgnoreTaggable"
 one C09 F11 "withIgnoreTaggable"
 one C09 F12 "skip nil pointers in slices"
+one C16 eventfallback "resolve an event.s hmac salt and info"
 rm -rf "$SCR"
